@@ -28,8 +28,8 @@ CHECKS = {
          "per denom supply delta after every block explained by, and every mint/burn event checked against, the rule of its denom class (external: none; native: vesting release / burner, gov, slashing; shares: with matching deposit move); sum of balances == supply", "6/C15", TB),
  "C18": ("fault_enumeration", "fault-schedule enumeration over real ABCI blocks + substitution-twin differential",
          "every block of every base history x enumerated fault schedule (oracle outages, block-time gaps, every module's validation-accepted parameter edges through real governance) must finalize and commit; a twin replica in which failed txs are replaced by a trivially failing tx must reach the same AppHash after every block", "6/C18", TB),
- "C19": ("fault_enumeration", "differential replicas with restart and crash-before-commit injected at every height, SIGKILL injection into a replaying process over LevelDB, race detector (thorough)",
-         "primary (probed) vs un-probed replica vs replica restarted after every height vs replica crashed between FinalizeBlock and Commit at every height: AppHash, tx results and block-event multisets equal after every block; a separate replaying process killed with SIGKILL at arbitrary moments restarts at a reported height with the primary's hash and reproduces every later hash; thorough: -race build with concurrent CheckTx/Query", "6/C19", TB),
+ "C19": ("fault_enumeration", "differential replicas with restart and crash-before-commit injected at every height, SIGKILL injection into a replaying process over LevelDB, Go race detector over block production with concurrent CheckTx / Simulate / Query (both tiers)",
+         "primary (probed) vs un-probed replica vs replica restarted after every height vs replica crashed between FinalizeBlock and Commit at every height: AppHash, tx results and block-event multisets equal after every block; a separate replaying process killed with SIGKILL at arbitrary moments restarts at a reported height with the primary's hash and reproduces every later hash; a -race build of the application producing blocks while goroutines run CheckTx, Simulate of fourteen message types and gRPC queries (one instance quick, three longer thorough)", "6/C19", TB),
  "C14": ("exploration", "pre-message / post-tx probe monitor against an independent linear-schedule reference",
          "every successful vest / claim / cancel / vest-now of an observed account is compared (entries, claimable Eden, uelys balance before vs after) with the monitor's own schedule floor(Total*min(h-start,N)/N); conservation Eden in == released + returned + still vesting; every claim by an account with entries must succeed (judged from the block log so panics count)", "6/C14", TB),
  "C16": ("exploration", "reference-model monitor (price map + feeder set) compared online at commits and pre-message probes",
